@@ -629,11 +629,27 @@ def replay(path):
     j = json.load(open(path))
     rp = j["replay"]
     print(json.dumps(j, indent=1)[:3000])
-    if rp.get("kind") == "unit":
+    if rp.get("kind") in ("unit", "io"):
         unit = V.build_prog("c15unit", ["props/C15/unit.cpp"])
         model = V.extract_model("C15", "coq/C15/Extract_C15.v", "props/C15/driver.ml", ["ocaml/fops.ml"])
-        print("impl :", V.run_lines(unit, [rp["case"]])[1])
-        print("model:", V.run_lines(model, [rp["case"]])[1])
+        for key in ("case", "cmd", "write", "read"):
+            c = rp.get(key)
+            if not c:
+                continue
+            out = V.run_lines(unit, [c])[1]
+            print("impl  %s: %s" % (key, [o.replace("|", "\n") if o.startswith("T ") else o for o in out]))
+            w = c.split()
+            if w[0] in ("GW", "SW"):
+                m = "WRITE " + ("state " + " ".join(w[1:]) if w[0] == "SW" else " ".join(w[1:]))
+                print("model %s: %s" % (key, V.run_lines(model, [m])[1]))
+            elif w[0] in ("GR", "SR", "GF") and " TEXT " in c:
+                head, text = c.split(" TEXT ", 1)
+                hw = head.split()
+                m = "READ " + ("state " + " ".join(hw[1:]) if hw[0] == "SR" else ("file " + " ".join(hw[1:]) if hw[0] == "GF" else " ".join(hw[1:])))
+                m += " TOKS " + " ".join(gridio.lex(text.replace("|", "\n")))
+                print("model %s: %s" % (key, V.run_lines(model, [m])[1]))
+            elif w[0] not in ("GW", "SW", "GR", "SR", "GF"):
+                print("model %s: %s" % (key, V.run_lines(model, [c])[1]))
     elif rp.get("kind") == "hist":
         vsim = V.build_prog("vsim", ["harness/vsim_main.cpp"])
         d = V.scratch("C15r")
